@@ -167,36 +167,11 @@ def run(ctx):
 
 
 def check_block_deser(ctx, oid="C04.4"):
-    R = ctx.R
-    # C04.4 block_deser
-    fb = ctx.fn("bits.blockchain.block_deser")
-    evb = ctx.evaluator(opaque=OPAQUE | {"bits.tx.tx_deser", "bits.blockchain.block_header_deser"})
-    sb = evb.run(fb)
-    blk = P(fb.params()[0], tm.BYTES)
-    loops = [lp for lp in sb.loops if lp.func == fb.qualname]
-    threaded = None
-    for lp in loops:
-        for var, val in lp.body.items():
-            call = tm.app("bits.tx.tx_deser", [T("acc", (var, lp.depth), tm.BYTES), True], ty=tm.TUPLE)
-            if tm.veq(val, T("proj", (call, 1))):
-                item = T("proj", (call, 0))
-                if any(tm.contains(v2, lambda t: tm.veq(t, item)) for k2, v2 in lp.body.items() if k2 != var):
-                    threaded = (lp, var)
-    R.check(oid, "THREAD", fb, "transactions threaded through tx_deser(include_raw=True)", threaded is not None,
-            "block_deser does not feed tx_deser the running remainder / collect its result")
-    if threaded:
-        lp, var = threaded
-        R.check(oid, "THREAD", fb, "first transaction parsed right after the count",
-                tm.veq(lp.init.get(var), pcs(tm.slc(blk, 80, None), 1)),
-                "transactions start at %s" % tm.show(lp.init.get(var))[:200])
-    rets = sb.returns()
-    cnt = pcs(tm.slc(blk, 80, None), 0)
-    okc = bool(rets) and all(any(isinstance(f, T) and f.op == "cmp" and f.args[0] == "eq" and (
-        tm.veq(f.args[2], cnt) or tm.veq(f.args[1], cnt)) for f in rules.all_facts(e)) for e in rets)
-    R.check(oid, "DOM", fb, "transaction count checked before returning", okc,
-            "the success return of block_deser is not dominated by `len(txns) == declared count`")
-    hdr_ok = bool(rets) and all(tm.contains(e.value, lambda t: tm.veq(t, tm.app("bits.blockchain.block_header_deser", [tm.slc(blk, None, 80)], ty=tm.DICT))) for e in rets)
-    R.check(oid, "TILE", fb, "header = first 80 bytes", hdr_ok, "block header is not block[:80]")
+    """block_deser: decided by round trips on built blocks (transactions in order with ids and raw bytes, header fields) and on
+    crafted blocks whose declared count is wrong (refused); no assumption on how the reader walks the buffer."""
+    from . import rt
+    rt.check_block_roundtrip(ctx, oid)
+    rt.check_block_crafted(ctx, oid)
 
 
 MINE_OPAQUE = OPAQUE | {"bits.tx.tx_deser", "bits.blockchain.merkle_root", "bits.blockchain.block_header", "bits.tx.coinbase_tx",
